@@ -21,6 +21,7 @@ import DarkluaModel.Rules.UnusedVariableHeap
 import DarkluaModel.Rules.UnusedVariableHeapV
 import DarkluaModel.Rules.UnusedVariableHeapV2
 import DarkluaModel.Rules.NilDeclarationHeap
+import DarkluaModel.Rules.NilDeclarationHeap2
 /-!
 # C01 — default rules preserve program behaviour: property theorems
 
@@ -786,5 +787,69 @@ example : Rules.NilDeclaration.Guarded.applyG litApi nilSample = Rules.NilDeclar
       .mk [.localAssign .loc [.mk "b" none, .mk "a" none, .mk "c" none] [.var "x"],
            .callStmt (.call (.var "emit") none .tuple [.var "a", .var "b", .var "c"])] none := by rfl
   exact ⟨h1.trans h2.symm, h2⟩
+
+/-! ### remove_nil_declaration — a much larger fragment: ARBITRARY value expressions -/
+
+/-- the "cannot return multiple values" analysis of `api` is sound (true of the real analysis:
+`can_return_multiple_values_sound`, `C08.single_sound`; no number-system or region hypothesis) -/
+def SingleSound (api : EvalApi) : Prop :=
+  ∀ e, api.canReturnMultiple e = false → Rules.NilDeclaration.General.SingleE e
+
+theorem singleSound_litApi : SingleSound litApi :=
+  fun e hm N call ρ k env σ σ' ws h => (litApi_total N).single e hm call ρ k env σ σ' ws h
+
+theorem singleSound_c08Api (N : NumOps) (E : Evaluator.EvalOps N) : SingleSound (c08Api N E) :=
+  fun e hm N' call ρ k env σ σ' ws h => by
+    have hl := C08.single_sound call ρ k env e σ σ' ws hm h
+    match ws, hl with
+    | [v], _ => rfl
+
+/-- **Whole rule, large fragment** (`_partial`): the values may now be ARBITRARY expressions (calls, tables,
+anything). `General.applyG` performs the rule's rewrite on every `local` declaration that has pairwise distinct
+names and NO SURPLUS VALUE (`#values ≤ #names`), and leaves the others alone; on every program on which the rule
+agrees with it (i.e. no declaration with surplus values is rewritten) `remove_nil_declaration` preserves the
+observable outcome. Proof: the rule's index juggling in closed form (`removeAt_spec`: the nil-valued positions are
+taken out, their names appended), the semantic core `split_equiv` (same evaluation, every name bound to the same
+value — `nil` literals evaluate to `nil` without effect, a multi-valued tail is parenthesised by the rule or feeds
+no variable), and the stage-3 link `LkS.permLocal`. Outside: popping a surplus value (may remove an ERROR). -/
+theorem rule_refines_remove_nil_declaration_partial2 (api : EvalApi) (hs : SingleSound api) (b : Block)
+    (h : Rules.NilDeclaration.General.applyG api b = Rules.NilDeclaration.apply api b)
+    {N : NumOps} (ρ : ExtOracle N) (n : Nat) (externs : List String) :
+    runProgram ρ n externs (Rules.NilDeclaration.apply api b) = runProgram ρ n externs b :=
+  Rules.NilDeclaration.General.apply_refines_of_agree api hs b h ρ n externs
+
+/-- the same for the evaluator model the driver executes — no evaluator hypothesis left -/
+theorem rule_refines_remove_nil_declaration_partial2_C08 (N0 : NumOps) (E : Evaluator.EvalOps N0) (b : Block)
+    (h : Rules.NilDeclaration.General.applyG (c08Api N0 E) b = Rules.NilDeclaration.apply (c08Api N0 E) b)
+    {N : NumOps} (ρ : ExtOracle N) (n : Nat) (externs : List String) :
+    runProgram ρ n externs (Rules.NilDeclaration.apply (c08Api N0 E) b) = runProgram ρ n externs b :=
+  rule_refines_remove_nil_declaration_partial2 _ (singleSound_c08Api N0 E) b h ρ n externs
+
+/-- that guarded rule is sound on EVERY program -/
+theorem rule_refines_remove_nil_declaration_guarded2 (api : EvalApi) (hs : SingleSound api) (b : Block)
+    {N : NumOps} (ρ : ExtOracle N) (n : Nat) (externs : List String) :
+    runProgram ρ n externs (Rules.NilDeclaration.General.applyG api b) = runProgram ρ n externs b :=
+  Rules.NilDeclaration.General.applyG_refines api hs b ρ n externs
+
+/-- `local a, b, c = nil, f(), nil; emit(a, b, c)` -/
+def nilCallSample : Block :=
+  .mk [.localAssign .loc [.mk "a" none, .mk "b" none, .mk "c" none] [.nil, .call (.var "f") none .tuple [], .nil],
+       .callStmt (.call (.var "emit") none .tuple [.var "a", .var "b", .var "c"])] none
+
+-- non-vacuity: a CALL among the values — inside the large `H`, outside the atomic one; the rule moves `a`, `c`
+-- behind `b` and parenthesises the call
+example : Rules.NilDeclaration.General.applyG litApi nilCallSample = Rules.NilDeclaration.apply litApi nilCallSample ∧
+    Rules.NilDeclaration.apply litApi nilCallSample =
+      .mk [.localAssign .loc [.mk "b" none, .mk "a" none, .mk "c" none] [.paren (.call (.var "f") none .tuple [])],
+           .callStmt (.call (.var "emit") none .tuple [.var "a", .var "b", .var "c"])] none ∧
+    Rules.NilDeclaration.Guarded.applyG litApi nilCallSample = nilCallSample := by
+  have h1 : Rules.NilDeclaration.General.applyG litApi nilCallSample =
+      .mk [.localAssign .loc [.mk "b" none, .mk "a" none, .mk "c" none] [.paren (.call (.var "f") none .tuple [])],
+           .callStmt (.call (.var "emit") none .tuple [.var "a", .var "b", .var "c"])] none := by rfl
+  have h2 : Rules.NilDeclaration.apply litApi nilCallSample =
+      .mk [.localAssign .loc [.mk "b" none, .mk "a" none, .mk "c" none] [.paren (.call (.var "f") none .tuple [])],
+           .callStmt (.call (.var "emit") none .tuple [.var "a", .var "b", .var "c"])] none := by rfl
+  have h3 : Rules.NilDeclaration.Guarded.applyG litApi nilCallSample = nilCallSample := by rfl
+  exact ⟨h1.trans h2.symm, h2, h3⟩
 
 end DarkluaModel.C01
